@@ -1197,11 +1197,11 @@ class OdeSystem(object):
                 return StateTuple(t=self.t[index], y=self.y[index], event=None)
         elif isinstance(index, slice):
             if index.start is not None:
-                start_idx = deutil.search_bisection(self.t[:self.counter + 1], index.start)
+                start_idx = self.__search_time(index.start)
             else:
                 start_idx = 0
             if index.stop is not None:
-                end_idx = deutil.search_bisection(self.t[:self.counter + 1], index.stop) + 1
+                end_idx = self.__search_time(index.stop) + 1
             else:
                 end_idx = self.counter + 1
             if index.step is not None:
@@ -1213,15 +1213,21 @@ class OdeSystem(object):
             if self.__dense_output and self.sol is not None:
                 return StateTuple(t=index, y=self.sol(index), event=None)
             else:
-                nearest_idx = deutil.search_bisection(self.__t, index)
-                if nearest_idx < self.counter:
-                    if D.ar_numpy.abs(D.ar_numpy.to_numpy(self.t[nearest_idx] - index)) < D.ar_numpy.abs(
-                            D.ar_numpy.to_numpy(self.t[nearest_idx + 1] - index)):
-                        return StateTuple(t=self.t[nearest_idx], y=self.y[nearest_idx], event=None)
-                    else:
-                        return StateTuple(t=self.t[nearest_idx + 1], y=self.y[nearest_idx + 1], event=None)
-                else:
-                    return StateTuple(t=self.t[nearest_idx], y=self.y[nearest_idx], event=None)
+                # the bisection returns the recorded time on the far side of `index` (seen along the direction of
+                # integration); the nearest sample is either that one or the one just before it
+                nearest_idx = self.__search_time(index)
+                other_idx = nearest_idx - 1 if self.t[-1] >= self.t[0] else nearest_idx + 1
+                if 0 <= other_idx <= self.counter:
+                    if D.ar_numpy.abs(D.ar_numpy.to_numpy(self.t[other_idx] - index)) < D.ar_numpy.abs(
+                            D.ar_numpy.to_numpy(self.t[nearest_idx] - index)):
+                        nearest_idx = other_idx
+                return StateTuple(t=self.t[nearest_idx], y=self.y[nearest_idx], event=None)
+
+    def __search_time(self, time):
+        """Index of the recorded time bracketing `time`, for trajectories recorded in either direction."""
+        if self.t[-1] >= self.t[0]:
+            return deutil.search_bisection(self.t, time)
+        return self.counter - deutil.search_bisection(self.t[::-1], time)
 
     def __len__(self):
         return self.counter + 1
